@@ -1,0 +1,349 @@
+//go:build verif
+
+// Verification hooks (C20, call sites): `log.run` of the scripted driver in verif_hooks.go.
+// It initialises the real logger of common/log (enabled, level DEBUG, log file in a temporary
+// directory, address scrubbing on or off), runs the real clientHandler / serverHandler through
+// one outcome path with peer / target addresses and address-bearing errors chosen by the
+// harness, and returns the text that ended up in the log file.  Nothing here runs unless the
+// driver is active; no existing behaviour is changed.
+//
+//	log.run <safe|unsafe> <client|server> <path> peer=<ip:port> local=<ip:port> target=<host:port>
+//	        errip=<ip> errhost=<name> dns=<ip:port>        →  ok <hex of the log text>
+//
+// client paths: socks-eof socks-operr args-fail dial-operr dial-dns reply-fail relay-eof relay-operr
+// server paths: wrap-operr wrap-plain relay-eof relay-operr
+package main
+
+import (
+	"bytes"
+	"errors"
+	"fmt"
+	"net"
+	"os"
+	"path/filepath"
+	"strconv"
+	"strings"
+	"sync"
+	"syscall"
+	"time"
+
+	pt "gitlab.torproject.org/tpo/anti-censorship/pluggable-transports/goptlib"
+
+	"gitlab.com/yawning/obfs4.git/common/log"
+	"gitlab.com/yawning/obfs4.git/transports/base"
+)
+
+type verifStrAddr struct{ s string }
+
+func (a verifStrAddr) Network() string { return "tcp" }
+func (a verifStrAddr) String() string  { return a.s }
+
+// verifLogConn: serves fixed byte strings (segment i only after i Writes were seen), then
+// either reports `endErr` or stays silent until it is closed; the `failWrite`-th Write fails.
+type verifLogConn struct {
+	mu        sync.Mutex
+	cond      *sync.Cond
+	segs      [][]byte
+	served    int
+	writes    int
+	cur       *bytes.Reader
+	endErr    error // nil: block until closed
+	failWrite int
+	writeErr  error
+	closed    bool
+	laddr     net.Addr
+	raddr     net.Addr
+}
+
+func verifNewLogConn(laddr, raddr net.Addr, endErr error, segs ...[]byte) *verifLogConn {
+	c := &verifLogConn{segs: segs, cur: bytes.NewReader(nil), endErr: endErr, laddr: laddr, raddr: raddr}
+	c.cond = sync.NewCond(&c.mu)
+	return c
+}
+
+func (c *verifLogConn) Read(p []byte) (int, error) {
+	c.mu.Lock()
+	defer c.mu.Unlock()
+	for {
+		switch {
+		case c.closed:
+			return 0, verifClosed
+		case c.cur.Len() > 0:
+			return c.cur.Read(p)
+		case c.served < len(c.segs) && c.writes >= c.served:
+			c.cur = bytes.NewReader(c.segs[c.served])
+			c.served++
+		case c.served == len(c.segs) && c.endErr != nil:
+			return 0, c.endErr
+		default:
+			c.cond.Wait()
+		}
+	}
+}
+
+func (c *verifLogConn) Write(p []byte) (int, error) {
+	c.mu.Lock()
+	defer c.mu.Unlock()
+	if c.closed {
+		return 0, verifClosed
+	}
+	c.writes++
+	c.cond.Broadcast()
+	if c.failWrite == c.writes {
+		return 0, c.writeErr
+	}
+	return len(p), nil
+}
+
+func (c *verifLogConn) Close() error {
+	c.mu.Lock()
+	defer c.mu.Unlock()
+	c.closed = true
+	c.cond.Broadcast()
+	return nil
+}
+
+func (c *verifLogConn) LocalAddr() net.Addr                { return c.laddr }
+func (c *verifLogConn) RemoteAddr() net.Addr               { return c.raddr }
+func (c *verifLogConn) SetDeadline(_ time.Time) error      { return nil }
+func (c *verifLogConn) SetReadDeadline(_ time.Time) error  { return nil }
+func (c *verifLogConn) SetWriteDeadline(_ time.Time) error { return nil }
+
+type verifLogFactory struct {
+	parseErr error
+	dialErr  error
+	wrapErr  error
+	remote   net.Conn
+}
+
+func (f *verifLogFactory) Transport() base.Transport { return verifStubTransport{} }
+func (f *verifLogFactory) ParseArgs(*pt.Args) (any, error) {
+	return nil, f.parseErr
+}
+
+func (f *verifLogFactory) Dial(string, string, base.DialFunc, any) (net.Conn, error) {
+	if f.dialErr != nil {
+		return nil, f.dialErr
+	}
+	return f.remote, nil
+}
+func (f *verifLogFactory) Args() *pt.Args { return nil }
+func (f *verifLogFactory) WrapConn(c net.Conn) (net.Conn, error) {
+	if f.wrapErr != nil {
+		return nil, f.wrapErr
+	}
+	return f.remote, nil
+}
+
+// verifSocksRequest: greeting and CONNECT request for host:port (IPv4, IPv6 or a domain name).
+func verifSocksRequest(target string) ([][]byte, error) {
+	host, portStr, err := net.SplitHostPort(target)
+	if err != nil {
+		return nil, err
+	}
+	port, err := strconv.Atoi(portStr)
+	if err != nil {
+		return nil, err
+	}
+	req := []byte{5, 1, 0}
+	if ip := net.ParseIP(host); ip != nil {
+		if v4 := ip.To4(); v4 != nil {
+			req = append(append(req, 1), v4...)
+		} else {
+			req = append(append(req, 4), ip.To16()...)
+		}
+	} else {
+		req = append(append(req, 3, byte(len(host))), host...)
+	}
+	req = append(req, byte(port>>8), byte(port))
+	return [][]byte{{5, 1, 0}, req}, nil
+}
+
+var (
+	verifLogDir   string
+	verifLogSeq   int
+	verifOrHoldMu sync.Mutex
+	verifOrHold   bool
+	verifOrHeld   []net.Conn
+	verifOrHoldLn *net.TCPListener
+)
+
+// verifOrHoldPort: a loopback "ORPort" that keeps its connections open until the run is over
+// (so that the relay ends because of the peer side, deterministically).
+func verifOrHoldPort() *net.TCPAddr {
+	if verifOrHoldLn == nil {
+		ln, err := net.ListenTCP("tcp", &net.TCPAddr{IP: net.IPv4(127, 0, 0, 1)})
+		if err != nil {
+			panic(err)
+		}
+		verifOrHoldLn = ln
+		go func() {
+			for {
+				c, err := ln.Accept()
+				if err != nil {
+					return
+				}
+				verifOrHoldMu.Lock()
+				verifOrHeld = append(verifOrHeld, c)
+				verifOrHoldMu.Unlock()
+			}
+		}()
+	}
+	return verifOrHoldLn.Addr().(*net.TCPAddr)
+}
+
+func verifLogRun(w []string) string {
+	if len(w) < 4 {
+		return "bad-op"
+	}
+	unsafeLog := w[1] == "unsafe"
+	who, path := w[2], w[3]
+	kv := map[string]string{}
+	for _, t := range w[4:] {
+		if i := strings.IndexByte(t, '='); i > 0 {
+			kv[t[:i]] = t[i+1:]
+		}
+	}
+	peer, local := verifStrAddr{kv["peer"]}, verifStrAddr{kv["local"]}
+	peerTCP, _ := net.ResolveTCPAddr("tcp", kv["peer"])
+	localTCP, _ := net.ResolveTCPAddr("tcp", kv["local"])
+	errIP := net.ParseIP(kv["errip"])
+	if peerTCP == nil || localTCP == nil || errIP == nil {
+		return "bad-op"
+	}
+	// address-bearing errors, as the net package builds them
+	readErr := &net.OpError{Op: "read", Net: "tcp", Source: localTCP, Addr: peerTCP, Err: os.NewSyscallError("read", syscall.ECONNRESET)}
+	writeErr := &net.OpError{Op: "write", Net: "tcp", Source: localTCP, Addr: peerTCP, Err: os.NewSyscallError("write", syscall.EPIPE)}
+	dialOpErr := &net.OpError{Op: "dial", Net: "tcp", Addr: &net.TCPAddr{IP: errIP, Port: 443}, Err: os.NewSyscallError("connect", syscall.ECONNREFUSED)}
+	dialDNSErr := &net.OpError{Op: "dial", Net: "tcp", Err: &net.DNSError{Err: "no such host", Name: kv["errhost"], Server: kv["dns"], IsNotFound: true}}
+
+	if verifLogDir == "" {
+		d, err := os.MkdirTemp("", "o4plog")
+		if err != nil {
+			return "error " + err.Error()
+		}
+		verifLogDir = d
+	}
+	verifLogSeq++
+	logPath := filepath.Join(verifLogDir, fmt.Sprintf("run%d.log", verifLogSeq))
+	if err := log.Init(true, logPath, unsafeLog); err != nil {
+		return "error " + strings.ReplaceAll(err.Error(), " ", "_")
+	}
+	if err := log.SetLogLevel("DEBUG"); err != nil {
+		return "error " + err.Error()
+	}
+	defer func() {
+		_ = log.Init(false, "", false)
+		os.Remove(logPath)
+	}()
+
+	m := &termMonitor{sigChan: make(chan os.Signal), handlerChan: make(chan int)}
+	termMon = m
+	stop := make(chan struct{})
+	go func() {
+		for {
+			select {
+			case <-m.handlerChan:
+			case <-stop:
+				return
+			}
+		}
+	}()
+	defer close(stop)
+
+	var run func()
+	switch who {
+	case "client":
+		socks, err := verifSocksRequest(kv["target"])
+		if err != nil {
+			return "bad-op"
+		}
+		f := &verifLogFactory{}
+		var conn *verifLogConn
+		switch path {
+		case "socks-eof":
+			conn = verifNewLogConn(local, peer, errors.New("EOF"))
+		case "socks-operr":
+			conn = verifNewLogConn(local, peer, readErr, socks[0])
+		case "args-fail":
+			conn = verifNewLogConn(local, peer, nil, socks...)
+			f.parseErr = errors.New("missing argument 'cert'")
+		case "dial-operr":
+			conn = verifNewLogConn(local, peer, nil, socks...)
+			f.dialErr = dialOpErr
+		case "dial-dns":
+			conn = verifNewLogConn(local, peer, nil, socks...)
+			f.dialErr = dialDNSErr
+		case "reply-fail":
+			conn = verifNewLogConn(local, peer, nil, socks...)
+			conn.failWrite, conn.writeErr = 2, writeErr
+			f.remote = verifNewLogConn(local, verifStrAddr{kv["target"]}, nil)
+		case "relay-eof":
+			conn = verifNewLogConn(local, peer, nil, socks...)
+			f.remote = verifNewLogConn(local, verifStrAddr{kv["target"]}, errors.New("EOF"), []byte("payload"))
+		case "relay-operr":
+			conn = verifNewLogConn(local, peer, nil, socks...)
+			f.remote = verifNewLogConn(local, verifStrAddr{kv["target"]},
+				&net.OpError{Op: "read", Net: "tcp", Source: localTCP, Addr: &net.TCPAddr{IP: errIP, Port: 443}, Err: os.NewSyscallError("read", syscall.ECONNRESET)},
+				[]byte("payload"))
+		default:
+			return "bad-op"
+		}
+		if path == "relay-eof" {
+			f.remote.(*verifLogConn).endErr = verifEOF()
+		}
+		run = func() { clientHandler(f, conn, nil) }
+	case "server":
+		f := &verifLogFactory{}
+		conn := verifNewLogConn(local, peer, nil)
+		switch path {
+		case "wrap-operr":
+			f.wrapErr = fmt.Errorf("handshake: %w", readErr)
+		case "wrap-plain":
+			f.wrapErr = errors.New("handshake: mark not found")
+		case "relay-eof":
+			f.remote = verifNewLogConn(local, peer, verifEOF(), []byte("payload"))
+		case "relay-operr":
+			f.remote = verifNewLogConn(local, peer, readErr, []byte("payload"))
+		default:
+			return "bad-op"
+		}
+		info := &pt.ServerInfo{OrAddr: verifOrHoldPort()}
+		run = func() { serverHandler(f, conn, info) }
+	default:
+		return "bad-op"
+	}
+	done := make(chan struct{})
+	go func() {
+		defer close(done)
+		run()
+	}()
+	finished := true
+	select {
+	case <-done:
+	case <-time.After(10 * time.Second):
+		finished = false
+	}
+	verifOrHoldMu.Lock()
+	for _, c := range verifOrHeld {
+		c.Close()
+	}
+	verifOrHeld = nil
+	verifOrHoldMu.Unlock()
+	if !finished {
+		return "stuck"
+	}
+	text, err := os.ReadFile(logPath)
+	if err != nil {
+		return "error " + strings.ReplaceAll(err.Error(), " ", "_")
+	}
+	return "ok " + verifHex(text)
+}
+
+// verifEOF returns io.EOF (kept out of the import list of this file's callers).
+func verifEOF() error { return errEOF }
+
+var errEOF = func() error {
+	_, err := bytes.NewReader(nil).Read(make([]byte, 1))
+	return err
+}()
